@@ -350,5 +350,47 @@ def finish(ctx):
                 if any(x is None or x[k] is not results[0][k] for x in results):
                     ctx.violation(f"C20:free-running-stress:{what}", f"16 free-running threads obtained different {what} objects in round {r}", {"round": r})
                     break
+        # a process that has lived for a while: thousands of products and quotients were formed before (whatever is kept per
+        # operand pair has reached whatever size it is allowed to reach); then 8 threads form the same 48 new products each
+        # round, all at once
+        Second, Gram = m.Unit._by_name["second"], m.Unit._by_name["gram"]
+        built = 0
+        for a_ in range(1, 80):
+            for b_ in range(1, 80):
+                Meter**a_ * Second**b_
+                Meter**a_ / Gram**b_
+                built += 2
+        ctx.count("products_formed_before_the_long_lived_stress", built)
+        rounds = 40 if ctx.tier == "quick" else 1200
+        for r in range(rounds):
+            nthreads = 8
+            results, errors = [None] * nthreads, [None] * nthreads
+            barrier = threading.Barrier(nthreads)
+
+            def work2(i, r=r):
+                out = []
+                barrier.wait()
+                try:
+                    for j in range(48):
+                        out.append(Meter ** (100 + r) * Gram ** (j + 1))
+                        out.append(Second ** (100 + r) / Gram ** (j + 1))
+                    results[i] = out
+                except BaseException as e:  # noqa
+                    errors[i] = e
+
+            ts = [threading.Thread(target=work2, args=(i,)) for i in range(nthreads)]
+            for t in ts:
+                t.start()
+            for t in ts:
+                t.join(60)
+            ctx.count("long_lived_stress_rounds")
+            bad = next((e for e in errors if e is not None), None)
+            if bad is not None:
+                ctx.violation(f"C20:free-running-stress:thread-raised:{type(bad).__name__}", f"in a process that had formed {built} products before, one of {nthreads} threads forming "
+                              f"the same new products at once raised {type(bad).__name__}: {bad}", {"round": r})
+                break
+            if any(x is None or any(p is not q for p, q in zip(x, results[0])) for x in results):
+                ctx.violation("C20:free-running-stress:Unit", f"{nthreads} free-running threads obtained different objects for one product in round {r} of a long-lived process", {"round": r})
+                break
     finally:
         sys.setswitchinterval(old)
